@@ -214,6 +214,18 @@ def replay_collection(model, obligation):
     mk = (lambda i: 'v%d' % i) if empty_ok else (lambda i: i + 1)
     pv = int(model.get('protocol_version', 4) or 4)
     fails = []
+    if hname in ('TupleType<empty_ok-fields>', 'UserType<empty_ok-fields>'):
+        # fields whose value may encode to zero bytes (text, blob): the empty value is a value, only a missing / null field is None
+        names, types = ('s', 'n', 'b', 't'), (cqltypes.UTF8Type, cqltypes.Int32Type, cqltypes.BytesType, cqltypes.UTF8Type)
+        t = cqltypes.TupleType.apply_parameters(types) if hname.startswith('Tuple') else cqltypes.UserType.make_udt_class('ks', 'verif_replay_udt_e', names, types)
+        for pvv in sorted({pv, 3, 4, 5}):
+            for val in [('', 7, b'', None), ('x', None, b'', ''), ('', 0, b'\x00', 'y'), (None, None, None, None)]:
+                b = t.serialize(val, pvv)
+                want = b''.join(struct.pack('>i', -1) if x is None else struct.pack('>i', len(ty.serialize(x, pvv))) + ty.serialize(x, pvv) for ty, x in zip(types, val))
+                back = tuple(t.deserialize(b, pvv))
+                if bytes(b) != want or back != val:
+                    fails.append('%s pv=%d %r -> %s (Cassandra: %s) -> %r' % (hname, pvv, val, bytes(b).hex(), want.hex(), back))
+        return {'reproduced': bool(fails), 'detail': '; '.join(fails[:3]) or 'tuples / UDTs with empty text and blob fields keep them on all versions'}
     if hname in ('TupleType', 'UserType'):
         inner = cqltypes.ListType.apply_parameters([cqltypes.Int32Type])
         inner_map = cqltypes.MapType.apply_parameters([cqltypes.UTF8Type, cqltypes.Int32Type])
